@@ -24,8 +24,8 @@ ASSUMPTIONS = [
     'Rp+dz0/2+z_j+dz_j/2; new: shells at layer boundaries, tangent at mid-layer); a re-discretisation must update them',
     'the oracle takes each contribution\'s prepared per-layer sigma as input (its correctness is C03/C04/C19)',
 ]
-_Q = {'abs': 120, 'mono': 25, 'big': 4, 'rerun': 60, 'several': 30}
-_T = {'abs': 2500, 'mono': 600, 'big': 60, 'rerun': 1200, 'several': 500}
+_Q = {'abs': 120, 'mono': 25, 'big': 4, 'rerun': 60, 'several': 30, 'components': 25}
+_T = {'abs': 2500, 'mono': 600, 'big': 60, 'rerun': 1200, 'several': 500, 'components': 400}
 BUDGET = {
     'quick': [dict(name='boundscheck', env={'NUMBA_BOUNDSCHECK': '1'}, shards=4, cases=_Q)],
     'thorough': [dict(name='boundscheck', env={'NUMBA_BOUNDSCHECK': '1'}, shards=16, cases=_T),
@@ -37,7 +37,7 @@ REQUIRED = dict(monitors=['chords', 'exp(-tau)', 'depth', 'depth>=bare', 'depth<
                          'early-exit-observed', 'contrib:CIA', 'contrib:Rayleigh', 'contrib:SimpleClouds',
                          'contrib:FlatMie', 'contrib:LeeMie', 'nlayers:2', 'rerun:evaluated-after-change',
                          'fault:fired:temperature', 'fault:fired:chemistry', 'fault:fired:contribution', 'fault:fired:pressure',
-                         'several:evaluation-judged'])
+                         'several:evaluation-judged', 'wn-dtype:i', 'components:judged'])
 TOL = 1e-10
 CUT = float(np.exp(-10.0))
 
@@ -272,6 +272,7 @@ def oracle(ctx, snap, spec):
 
 
 def observe_case(ctx, spec):
+    ctx.observe('wn-dtype:' + next(iter(spec['tables'].values()))['wn'].dtype.kind)
     ctx.observe('method:new' if spec['new_method'] else 'method:old', 'magnitude:' + spec['magnitude'],
                 'nlayers:%d' % spec['nlayers'], 'T:' + spec['temperature']['kind'])
     for c in spec['contributions']:
@@ -451,7 +452,19 @@ def wl_several(ctx, rng):
     ctx.sig('several', spec['nlayers'], len(models), tuple(seq), spec['magnitude'], round(spec['planet_mass'], 6))
 
 
-WORKLOADS = {'abs': wl_abs, 'mono': wl_mono, 'big': wl_big, 'rerun': wl_rerun, 'several': wl_several}
+def wl_components(ctx, rng):
+    """tau is the sum of CROSS-SECTION x number density x chord length: here the cross-section every contribution
+    prepares is itself judged (sum of its components; component = tabulated cross-section x mixing ratio, x1 x2 for
+    collision pairs) with the component monitors of C03, on worlds with several CIA pairs, exact zeros and several
+    contributions, before the integral is judged as usual."""
+    from vmon.props import c03
+    c03.install_component_taps(ctx)
+    (c03.wl_cia_pairs if rng.random() < 0.5 else c03.wl_compose)(ctx, rng)
+    ctx.observe('components:judged')
+
+
+WORKLOADS = {'abs': wl_abs, 'mono': wl_mono, 'big': wl_big, 'rerun': wl_rerun, 'several': wl_several,
+             'components': wl_components}
 
 LEVEL_TEXT = ('Exploration by runtime monitoring: every TransmissionModel.path_integral call made by the workload is '
               'tapped (geometry, density, each contribution\'s prepared sigma before; depth, exp(-tau), chord lengths '
